@@ -286,6 +286,11 @@ func (fr *frame) runFrame() {
 			if gp.stack == "" {
 				gp.stack = fr.p.stack(fr)
 			}
+		case unsupportedErr:
+			if !strings.Contains(gp.msg, " <- ") && fr.p.spec == 0 {
+				gp.msg += " [" + fr.p.stack(fr) + "]"
+			}
+			panic(gp)
 		default:
 			panic(r) // engine-level signal or Go runtime bug: propagate, no defers
 		}
@@ -621,9 +626,9 @@ func (fr *frame) visit(instr ssa.Instruction) continuation {
 		}
 		fr.set(in, st[in.Field])
 	case *ssa.IndexAddr:
-		fr.set(in, fr.indexAddr(fr.get(in.X), termOf(fr.get(in.Index))))
+		fr.set(in, fr.indexAddr(fr.get(in.X), fr.idxTerm(in.Index)))
 	case *ssa.Index:
-		fr.set(in, fr.index(fr.get(in.X), termOf(fr.get(in.Index))))
+		fr.set(in, fr.index(fr.get(in.X), fr.idxTerm(in.Index)))
 	case *ssa.Lookup:
 		fr.set(in, fr.lookup(in))
 	case *ssa.MapUpdate:
@@ -804,6 +809,19 @@ func (fr *frame) indexAddr(x Value, idx *Term) Value {
 	}
 	i := fr.p.concretizeRange(idx, 0, len(elems)-1)
 	return &elems[i]
+}
+
+// idxTerm evaluates an index operand and widens it to 64 bits according to
+// the signedness of its static type.
+func (fr *frame) idxTerm(v ssa.Value) *Term {
+	t := termOf(fr.get(v))
+	if t.S.W < 64 {
+		if b, ok := v.Type().Underlying().(*types.Basic); ok && b.Info()&types.IsUnsigned != 0 {
+			return ZExt(t, 64)
+		}
+		return SExt(t, 64)
+	}
+	return t
 }
 
 func toIdx64(idx *Term) *Term {
